@@ -29,6 +29,9 @@ func (d *Delete) Marshal() ([]byte, error) {
 	binary.BigEndian.PutUint16(deleteData[2:4], d.NumberOfSPI)
 
 	if int(d.NumberOfSPI) > 0 {
+		if d.SPISize != 4 {
+			return nil, errors.Errorf("Delete: SPI size %d not supported, SPIs are 4 octets", d.SPISize)
+		}
 		byteSlice := make([]byte, d.SPISize)
 		for _, v := range d.SPIs {
 			binary.BigEndian.PutUint32(byteSlice, v)
